@@ -399,6 +399,11 @@ class Signed:
         """compare pycoin's verdicts on `tx` (and on `fresh`) with the table, and the table with refvm"""
         n = len(model["ins"])
         n_bad = 0
+        # pycoin's convention (and property C20's last clause): a transaction whose single input has the all-zero previous
+        # hash is a coinbase, which spends nothing and "is never counted as having unsigned inputs" - whatever is recorded
+        # as its spent output.  A mutation that turns the transaction into that shape leaves this property's domain
+        # (signed transactions spending recorded outputs): neither verdict is judged for it.
+        coinbase_shaped = n == 1 and model["ins"][0]["prev_hash"] == b"\0" * 32
         for p in range(n):
             exp, why = self.expected(model, p)
             if known_unspent(model, p):
@@ -409,6 +414,8 @@ class Signed:
                     raise HarnessError("commitment table and refvm disagree on %s, input %d (%s): table %r, refvm %r %s; signed tx %s hts %s" % (
                         what, p, why, exp, ref, err, json.dumps(self.case["tx"]), self.case["hts"]))
             got = tx.is_solution_ok(p)
+            if coinbase_shaped and known_unspent(model, p):
+                continue
             q = model["ins"][p]["src"]
             desc = "%s after %s: input %d (%s, hash type %s, %s)" % (
                 self.B.coin, what, p, self.B.ins[q].kind if q is not None else "unsigned", "0x%02x" % self.eff[q] if q is not None else "-", why)
@@ -425,11 +432,8 @@ class Signed:
             labels.append("must-stay-valid" if exp else "must-fail")
             labels.append("why=" + why)
         cnt = tx.bad_solution_count()
-        # pycoin's documented convention: a transaction whose single input has the all-zero previous hash is a coinbase,
-        # which spends nothing, and its count of bad solutions is 0.  With no spent output recorded for it there is nothing
-        # to validate: the count is not judged (is_solution_ok above still is: it must be False).
-        if n == 1 and model["ins"][0]["prev_hash"] == b"\0" * 32 and not known_unspent(model, 0):
-            labels.append("coinbase-shaped:count-not-judged")
+        if coinbase_shaped:
+            labels.append("coinbase-shaped:not-judged")
         elif cnt != n_bad:
             _bad("tamper:bad_solution_count", "%s after %s: bad_solution_count() = %d, expected %d" % (self.B.coin, what, cnt, n_bad))
         if fresh is not None and fresh.bad_solution_count() != cnt:
